@@ -1,0 +1,27 @@
+//go:build verif
+// +build verif
+
+package core
+
+import "time"
+
+// Exports for the verification harness (build tag "verif").
+
+// WithPurgeUploaderInterval sets the period of the background uploader of
+// reverse-lookup index chunks (5 minutes by default, which never fires in a test).
+func WithPurgeUploaderInterval(d time.Duration) PurgeOption {
+	return func(o *purgeOptions) {
+		if d > 0 {
+			o.uploaderInterval = d
+		}
+	}
+}
+
+// WithPurgeMonitorInterval sets the period of the purge progress monitor.
+func WithPurgeMonitorInterval(d time.Duration) PurgeOption {
+	return func(o *purgeOptions) {
+		if d > 0 {
+			o.monitorInterval = d
+		}
+	}
+}
